@@ -1,11 +1,19 @@
+import CharsetProof.Lemmas.FloatExact
 import CharsetProof.Lemmas.Merge
+import CharsetProof.Lemmas.Single
 import CharsetProof.Lemmas.SortSmall
 import CharsetProof.Lemmas.SortSorted
 import CharsetProof.Props.C04
 import CharsetProof.Props.C10
 import CharsetProof.Props.C10c
 import CharsetProof.Props.C19
+import CharsetProof.Props.C19f
 open Charset
+#print axioms C19_single_chunk_full
+#print axioms mergeModel_single
+#print axioms Fl.roundPos_ival
+#print axioms Fl.div_one_nn
+#print axioms Fl.zero_add_nn
 #print axioms C19_result_sorted_current
 #print axioms mergeModel_sorted
 #print axioms sortUnstableSmall_pairwise
